@@ -275,6 +275,189 @@ def apply(f, m):
     return n_
 
 
+# ------------------------------------------------------------------------------------------------ respelling
+def _simple_operand(e):
+    if isinstance(e, (ast.Name, ast.Constant)):
+        return True
+    if isinstance(e, ast.Attribute):
+        return _simple_operand(e.value)
+    if isinstance(e, ast.Subscript):
+        return _simple_operand(e.value) and (_simple_operand(e.slice) or isinstance(e.slice, ast.Slice))
+    if isinstance(e, ast.UnaryOp) and isinstance(e.op, ast.USub):
+        return _simple_operand(e.operand)
+    if isinstance(e, ast.Call) and isinstance(e.func, ast.Name) and e.func.id == "len" and len(e.args) == 1 and not e.keywords:
+        return _simple_operand(e.args[0])
+    if isinstance(e, ast.BinOp) and isinstance(e.op, (ast.Add, ast.Sub, ast.Mult)):
+        return _simple_operand(e.left) and _simple_operand(e.right)
+    return False
+
+
+_MIRROR = {ast.Lt: ast.Gt, ast.Gt: ast.Lt, ast.LtE: ast.GtE, ast.GtE: ast.LtE, ast.Eq: ast.Eq, ast.NotEq: ast.NotEq}
+_NEG = {ast.Eq: ast.NotEq, ast.NotEq: ast.Eq, ast.Is: ast.IsNot, ast.IsNot: ast.Is, ast.In: ast.NotIn, ast.NotIn: ast.In}
+
+
+def _negated(t):
+    """an expression equivalent to `not t` for equality / identity / membership / truthiness tests; None for others"""
+    if isinstance(t, ast.UnaryOp) and isinstance(t.op, ast.Not):
+        return t.operand
+    if isinstance(t, ast.Compare) and len(t.ops) == 1:
+        if type(t.ops[0]) in _NEG:
+            return ast.copy_location(ast.Compare(left=t.left, ops=[_NEG[type(t.ops[0])]()], comparators=t.comparators), t)
+        return None
+    if isinstance(t, ast.BoolOp):
+        return None
+    return ast.copy_location(ast.UnaryOp(op=ast.Not(), operand=t), t)
+
+
+def _relinearise(if_node):
+    """after the two branches of an `if` changed places: keep line numbers non-decreasing in structural order (rules and
+    reports order sites by line); every statement keeps a line inside the same `if` statement"""
+    stmts = []
+
+    def rec(lst):
+        for st in lst:
+            stmts.append(st)
+            for fld in ("body", "orelse", "finalbody"):
+                v = getattr(st, fld, None)
+                if isinstance(v, list) and v and isinstance(v[0], ast.stmt):
+                    rec(v)
+            if isinstance(st, ast.Try):
+                for h in st.handlers:
+                    rec(h.body)
+    rec(if_node.body)
+    rec(if_node.orelse)
+    lines = sorted(getattr(st, "lineno", 0) for st in stmts)
+    for st, ln in zip(stmts, lines):
+        d = ln - getattr(st, "lineno", ln)
+        if d:
+            own = [st] + [x for x in ast.iter_child_nodes(st) if not isinstance(x, ast.stmt)]
+            todo = list(own)
+            while todo:
+                x = todo.pop()
+                if hasattr(x, "lineno"):
+                    x.lineno += d
+                if hasattr(x, "end_lineno") and x.end_lineno is not None:
+                    x.end_lineno += d
+                todo.extend(c for c in ast.iter_child_nodes(x) if not isinstance(c, ast.stmt))
+
+
+def respell(f_new, f_ref):
+    """Bring equivalent spellings of conditions in f_new to the form the reference function uses (assumption, recorded in the
+    evidence: comparison operators are consistent under reflection for the operands concerned - plain names, attribute paths,
+    subscripts, constants, len() - and == / != are each other's negation):
+        not (a in b) / not (a is b) / not (a == b) / not (a != b)      -> a not in b / a is not b / a != b / a == b   (always)
+        b > a  -> a < b  (and the other mirror images)        when the reference function contains the mirrored comparison
+                                                              and not the one written
+        if T: A else: B  ->  if not-T: B else: A              when not-T is a test of the reference function and T is not
+    -> number of rewrites"""
+    from .core import norm as _norm
+    n_ = [0]
+    ref_cmp = {_norm(c) for c in ast.walk(f_ref) if isinstance(c, ast.Compare)}
+    ref_tests = {_norm(s.test) for s in ast.walk(f_ref) if isinstance(s, (ast.If, ast.While, ast.IfExp))}
+
+    class T(ast.NodeTransformer):
+        def visit_UnaryOp(self, n):
+            self.generic_visit(n)
+            if isinstance(n.op, ast.Not) and isinstance(n.operand, ast.Compare) and len(n.operand.ops) == 1 and type(n.operand.ops[0]) in (ast.In, ast.Is, ast.Eq, ast.NotEq):
+                n_[0] += 1
+                return _negated(n.operand)
+            return n
+
+        def visit_Compare(self, n):
+            self.generic_visit(n)
+            if len(n.ops) == 1 and type(n.ops[0]) in _MIRROR and _simple_operand(n.left) and _simple_operand(n.comparators[0]):
+                t = _norm(n)
+                if t not in ref_cmp:
+                    m = ast.copy_location(ast.Compare(left=n.comparators[0], ops=[_MIRROR[type(n.ops[0])]()], comparators=[n.left]), n)
+                    if _norm(m) in ref_cmp:
+                        n_[0] += 1
+                        return m
+            return n
+
+        def visit_If(self, n):
+            self.generic_visit(n)
+            if n.orelse and not (len(n.orelse) == 1 and isinstance(n.orelse[0], ast.If)) and _norm(n.test) not in ref_tests:
+                neg = _negated(n.test)
+                if neg is not None and _norm(neg) in ref_tests:
+                    n_[0] += 1
+                    new_if = ast.copy_location(ast.If(test=neg, body=n.orelse, orelse=n.body), n)
+                    _relinearise(new_if)
+                    return new_if
+            return n
+
+        def visit_IfExp(self, n):
+            self.generic_visit(n)
+            if _norm(n.test) not in ref_tests:
+                neg = _negated(n.test)
+                if neg is not None and _norm(neg) in ref_tests:
+                    n_[0] += 1
+                    return ast.copy_location(ast.IfExp(test=neg, body=n.orelse, orelse=n.body), n)
+            return n
+
+        def visit_FunctionDef(self, n):
+            if n is f_new:
+                self.generic_visit(n)
+            return n
+        visit_AsyncFunctionDef = visit_FunctionDef
+
+        def visit_Lambda(self, n):
+            return n
+
+        def visit_ClassDef(self, n):
+            return n
+    T().visit(f_new)
+    # `if c: <..leaves> else: REST`  <->  `if c: <..leaves>` REST : the form the reference uses for the `if` with the same test
+    ref_ifs = {}
+    for s_ in ast.walk(f_ref):
+        if isinstance(s_, ast.If):
+            ref_ifs.setdefault(_norm(s_.test), []).append(s_)
+
+    def leaves(stmts):
+        if not stmts:
+            return False
+        last = stmts[-1]
+        if isinstance(last, (ast.Return, ast.Raise, ast.Continue, ast.Break)):
+            return True
+        if isinstance(last, ast.If) and last.orelse:
+            return leaves(last.body) and leaves(last.orelse)
+        return False
+
+    def fix_block(owner, field):
+        lst = getattr(owner, field)
+        i = 0
+        while i < len(lst):
+            st = lst[i]
+            if isinstance(st, ast.If) and not isinstance(st, FUNC):
+                rs = ref_ifs.get(_norm(st.test), [])
+                if len(rs) == 1 and leaves(st.body):
+                    r = rs[0]
+                    if st.orelse and not r.orelse and not (len(st.orelse) == 1 and isinstance(st.orelse[0], ast.If) and False):
+                        # flatten: the else part follows the if
+                        rest = st.orelse
+                        st.orelse = []
+                        lst[i + 1:i + 1] = rest
+                        n_[0] += 1
+                    elif not st.orelse and r.orelse and i + 1 < len(lst) and leaves(r.body) and not any(isinstance(x, FUNC + (ast.ClassDef,)) for x in lst[i + 1:]):
+                        st.orelse = lst[i + 1:]
+                        del lst[i + 1:]
+                        n_[0] += 1
+            i += 1
+        for st in lst:
+            if isinstance(st, FUNC + (ast.ClassDef,)):
+                continue
+            for fld in ("body", "orelse", "finalbody"):
+                v = getattr(st, fld, None)
+                if isinstance(v, list) and v and isinstance(v[0], ast.stmt):
+                    fix_block(st, fld)
+            if isinstance(st, ast.Try):
+                for h in st.handlers:
+                    fix_block(h, "body")
+    fix_block(f_new, "body")
+    if n_[0]:
+        ast.fix_missing_locations(f_new)
+    return n_[0]
+
+
 _REF_CACHE = {}
 
 
@@ -722,4 +905,8 @@ def normalise_module(tree, rel, root=None):
             rep["names"] += len(m)
             rep["same_shape" if how == "same-shape" else "aligned"] += 1
             rep["details"][q] = m
+        k = respell(f, fr)
+        if k:
+            rep["respelled"] = rep.get("respelled", 0) + k
+            rep.setdefault("respelled_in", []).append(q)
     return rep
